@@ -301,11 +301,20 @@ func pooledPhase(g *senGen, n int) {
 						os.Exit(3)
 					}
 					m := parseModel(a)
-					if m.fault {
-						ok = false // what a panic leaves behind is not modelled
-						break
-					}
 					plus, lsk, lk = m.plus, m.lsk, m.lk
+					if m.fault {
+						// a panic in the '+' branch of addString happens before the flag is cleared (the state
+						// is the one before the failing byte, which is what the model reports); the
+						// empty-stack delivery panics after addString has cleared it
+						if !strings.Contains(m.kind, "not_a_string") {
+							if strings.Contains(m.kind, "index_out_of_range_[0]") {
+								plus = false
+							} else {
+								ok = false
+								break
+							}
+						}
+					}
 				}
 				if !ok || !plus {
 					continue
